@@ -5,6 +5,7 @@ import (
 	"fmt"
 	"io"
 
+	sflate "compress/flate"
 	sgzip "compress/gzip"
 	szlib "compress/zlib"
 
@@ -23,7 +24,7 @@ func init() { register(c10{}) }
 func (c10) ID() string            { return "C10" }
 func (c10) EvidenceLevel() string { return "exploration" }
 func (c10) Rule() string {
-	return "case = (flate/gzip/zlib, level -2..9, 32K/4K window, a Write/Flush history: Flush first, twice, with nothing pending after data, after every byte of small inputs, exactly at buffer roll-overs, Huffman-only blocks of 0..3 bytes). At every Flush that returns nil the bytes emitted so far are given to the strict reference inflater (must be: need-more-input, output == all data written so far, no block marked final), to compress/flate|gzip|zlib (data so far then io.ErrUnexpectedEOF) and to fastgo's own Reader (likewise); at Close the whole stream must pass the C01 oracle. Non-trivial: a Flush point with at least one byte written before it; distinct by (setting, data digest, flush position)."
+	return "case = (flate/gzip/zlib, level -2..9, 32K/4K window, a Write/Flush history: Flush first, twice, with nothing pending after data, after every byte of small inputs, exactly at buffer roll-overs, Huffman-only blocks of 0..3 bytes). At every Flush that returns nil the bytes emitted so far are given to the strict reference inflater (must be: need-more-input, output == all data written so far, no block marked final), to compress/flate|gzip|zlib (data so far then io.ErrUnexpectedEOF) and to fastgo's own Reader (likewise); at Close the whole stream must pass the C01 oracle. Non-trivial: a Flush point with at least one byte written before it; distinct by (setting, data digest, flush position). Case 0 (levels 0, 3, 4): Write(1000 bytes), Flush, exactly 2^32 zero bytes, Flush through gzip and zlib; compress/flate must decode 2^32+1000 bytes from what was emitted."
 }
 func (c10) NumCases(tier string) int {
 	if tier == "thorough" {
@@ -42,7 +43,63 @@ func deflateOffset(wrapper string) int {
 	return 0
 }
 
-func (c10) Run(c *mon.Ctx, i int) {
+// countWriter counts what is written to it.
+type countWriter struct{ n int64 }
+
+func (w *countWriter) Write(p []byte) (int, error) { w.n += int64(len(p)); return len(p), nil }
+
+// huge: exactly 2^32 bytes between two Flushes (the byte counters of the
+// containers are 32 bits wide): the bytes emitted up to the second Flush must
+// decode to everything written.
+func (c10) huge(c *mon.Ctx, wrapper string) {
+	var out bytes.Buffer
+	w, err := NewWriter(c.API, Setting{Wrapper: wrapper, Level: 1}, &out)
+	if err != nil {
+		return
+	}
+	first := c.R.Bytes(1000)
+	zeros := make([]byte, 1<<20)
+	var werr error
+	w.Write(first)
+	if werr = w.Flush(); werr == nil {
+		for k := 0; k < 4096 && werr == nil; k++ {
+			_, werr = w.Write(zeros)
+		}
+		if werr == nil {
+			werr = w.Flush()
+		}
+	}
+	if werr != nil {
+		c.Count("dropped:writer-error", 1)
+		return
+	}
+	c.Eval(1)
+	want := int64(1000) + 1<<32
+	body := out.Bytes()
+	if wrapper == "gzip" {
+		body = body[10:]
+	} else {
+		body = body[2:]
+	}
+	cw := &countWriter{}
+	_, derr := io.Copy(cw, sflate.NewReader(bytes.NewReader(body)))
+	desc := map[string]interface{}{"wrapper": wrapper, "written": want, "decodable_from_emitted_bytes": cw.n, "emitted": out.Len(), "decoder_end": fmt.Sprint(derr)}
+	if cw.n != want {
+		c.Violate("prefix-incomplete|"+wrapper+"|2^32-bytes-between-flushes", fmt.Sprintf("%s: Write(1000), Flush, 2^32 bytes, Flush: all calls returned nil, but the bytes emitted so far decode to %d of the %d bytes written", wrapper, cw.n, want), desc)
+		return
+	}
+	c.Count("2^32-bytes-between-flushes:"+wrapper, 1)
+	c.Nontrivial("huge", wrapper)
+}
+
+func (p c10) Run(c *mon.Ctx, i int) {
+	if i == 0 && (c.Level == 0 || c.Level >= 3) {
+		p.huge(c, "gzip")
+		if c.Level == 4 || c.Level == 0 {
+			p.huge(c, "zlib")
+		}
+		return
+	}
 	r := c.R
 	s := Setting{Wrapper: []string{"flate", "flate", "gzip", "zlib"}[i%4]}
 	if r.Chance(3, 4) {
